@@ -344,6 +344,26 @@ def fam_break_continue(nb, nc, loop="while", order="bc", nest=0):
     return (s + "\nend\n").encode()
 
 
+def fam_param_limit(kind, n):
+    """parameter lists / array literals of n elements, around the width of the count operand (255 / 65535)"""
+    ones = " ".join(str(i % 7) for i in range(n))
+    if kind == "cmd":
+        return ("println " + ones + "\nend\n").encode()
+    if kind == "cmdx":
+        return ("local.r = (int " + ones + ")\nend\n").encode()
+    if kind == "mcmd":
+        return ("local notify " + ones + "\nend\n").encode()
+    if kind == "mcmdx":
+        return ("local.r = (local waitthread " + ones + ")\nend\n").encode()
+    if kind == "thread":
+        return ("local thread f " + ones + "\nend\nf:\nend\n").encode()
+    if kind == "carr":
+        return ("local.a = " + "::".join(str(i % 7) for i in range(n)) + "\nend\n").encode()
+    if kind == "marr":
+        return ("local.a = makeArray\n" + "\n".join(str(i % 7) for i in range(n)) + "\nendArray\nend\n").encode()
+    raise ValueError(kind)
+
+
 def fam_lexical():
     """deterministic lexical edge cases: long tokens around flex's buffer sizes, NUL bytes, unterminated strings /
     comments, stray escapes"""
